@@ -1,4 +1,5 @@
 import Dcg.Proofs.Modules
+import Dcg.Proofs.ModulesNorm
 /-
 C12 — in multi-module output every cross-module reference resolves inside the package.
 Only property theorems live here; helper lemmas are in Dcg/Proofs/Modules.lean.
@@ -247,6 +248,148 @@ example :
     deepestFirst mods = true ∧ (⟨[n "a", n "b", n "d"], true⟩ : Proc) ∈ procOrder mods ∧
     (⟨[n "a", n "b"], true, .init [n "a", n "b"], true⟩ : Assigned) ∈ assign [] (procOrder mods) ∧
     ((fileMap mods).find? (·.1.isInit)).isSome = true := by decide
+
+/-! ### renaming a class inside its module (`DataModel.class_name` setter, per-module duplicate names)
+
+The models are grouped into modules by `module_path` BEFORE `__replace_duplicate_name_in_module` renames
+the classes whose names collide inside one module (`models.Pet` / `models.pet` → `Pet`, `PetModel`);
+every import of the renamed class is computed from its `module_path` AFTER the renaming. Both must be the
+same path, for models read from input files too, where the path also holds directories and file stem. -/
+
+/-- Renaming through the setter never moves a model: for EVERY dotted or undotted name, every new class
+name without a dot, and every source file (or none), the module path computed from the new name is the
+module path of the old name, and the class name read back is the one that was set. -/
+theorem rename_keeps_module_path (treatDot : Bool) (name cls : List Char)
+    (file : Option (List Name × Name)) (hcls : '.' ∉ cls) :
+    getModulePath treatDot (setClassName name cls) file = getModulePath treatDot name file ∧
+    className (setClassName name cls) = cls :=
+  ⟨getModulePath_setClassName treatDot name cls file hcls, className_setClassName name cls hcls⟩
+
+/-- the same for a whole module: after `__replace_duplicate_name_in_module` (whatever it renames, to
+whatever dot-free names) every model still has the module path it was grouped under -/
+theorem rename_all_keeps_module_paths (treatDot : Bool) (file : Option (List Name × Name))
+    (jobs : List (List Char × Option (List Char)))
+    (h : ∀ j ∈ jobs, ∀ c, j.2 = some c → '.' ∉ c) :
+    (renameAll jobs).map (fun nm => getModulePath treatDot nm file) =
+      jobs.map (fun j => getModulePath treatDot j.1 file) := by
+  induction jobs with
+  | nil => rfl
+  | cons j rest ih =>
+    obtain ⟨nm, o⟩ := j
+    have ih' := ih (fun j hj => h j (List.mem_cons_of_mem _ hj))
+    cases o with
+    | none => simp only [renameAll, List.map_cons, ih']
+    | some c =>
+      simp only [renameAll, List.map_cons, ih']
+      rw [getModulePath_setClassName treatDot nm c file (h (nm, some c) (by simp) c rfl)]
+
+/-- non-vacuity: the two definitions of `api.json` that collapse to `Pet` in module `api.models`; the second is renamed -/
+example :
+    let jobs := [(n "models.Pet", none), (n "models.pet", some (n "PetModel"))]
+    (∀ j ∈ jobs, ∀ c, j.2 = some c → '.' ∉ c) ∧
+    renameAll jobs = [n "models.Pet", n "models.PetModel"] ∧
+    (renameAll jobs).map (fun nm => getModulePath false nm (some ([n "my-api"], n "api"))) =
+      [[n "my-api", n "api", n "models"], [n "my-api", n "api", n "models"]] := by decide
+
+/-- COMPOSITION with `relative_resolves_package_file`: the import a package file writes for the RENAMED
+class designates, by Python's rule, the module the class was grouped under (and is written to). -/
+theorem renamed_class_import_resolves_package_file (cur : MPath) (treatDot : Bool) (name cls : List Char)
+    (file : Option (List Name × Name)) (hcls : '.' ∉ cls)
+    (hn : namesNonempty (getModulePath treatDot name file) = true) (hcur : cur ≠ [])
+    (hne : cur ≠ getModulePath treatDot name file) :
+    ∃ r, emitted cur true false false (getModulePath treatDot (setClassName name cls) file) cls = some r ∧
+      designated cur true r = some (getModulePath treatDot name file) := by
+  rw [getModulePath_setClassName treatDot name cls file hcls]
+  exact relative_resolves_package_file cur _ cls hn hcur hne
+
+/-- … and so does the import a plain module writes (importee not below the importer) -/
+theorem renamed_class_import_resolves_plain_partial (cur : MPath) (treatDot : Bool) (name cls : List Char)
+    (file : Option (List Name × Name)) (hcls : '.' ∉ cls)
+    (hn : namesNonempty (getModulePath treatDot name file) = true)
+    (h : cur.isPrefixOf (getModulePath treatDot name file) = false) :
+    ∃ r, emitted cur false false false (getModulePath treatDot (setClassName name cls) file) cls = some r ∧
+      designated cur false r = some (getModulePath treatDot name file) := by
+  rw [getModulePath_setClassName treatDot name cls file hcls]
+  exact relative_resolves_plain_partial cur _ cls hn h
+
+/-- non-vacuity, on the shape of a real input: `models.pet` of `api.json` renamed to `PetModel` stays in
+`api.models`; the root module `zoo` imports it as `from .api import models` -/
+example :
+    setClassName (n "models.pet") (n "PetModel") = n "models.PetModel" ∧
+    getModulePath false (n "models.PetModel") (some ([], n "api")) = [n "api", n "models"] ∧
+    emitted [n "zoo"] false false false [n "api", n "models"] (n "PetModel") = some ⟨1, [n "api"], n "models", true⟩ ∧
+    designated [n "zoo"] false ⟨1, [n "api"], n "models", true⟩ = some [n "api", n "models"] := by decide
+
+/-- why the prefix must come from the NAME: rebuilt from the module name (which already holds the file's
+own module `api`) the path would count the file twice -/
+example :
+    getModulePath false (joinDot (getModulePath false (n "models.pet") (some ([], n "api")) ++ [n "PetModel"]))
+      (some ([], n "api")) = [n "api", n "api", n "models"] := by decide
+
+/-! ### the keys of the dict `parse()` returns (input file trees: directory names with `"-"`) -/
+
+/-- No part of any key of the result — directory names, file stems — contains `"-"`, with and without
+`--treat-dot-as-module`, for ALL module paths (raw directory names of any shape included). -/
+theorem result_keys_hyphen_free (treatDot : Bool) (mods : List MPath) :
+    ∀ k ∈ keys (resultsFinal treatDot mods), k.hyphenFree = true := by
+  unfold resultsFinal
+  split
+  · exact hyphenFree_keys_postTreatDot (hyphenFree_keys_rekey_normHyphen _)
+  · exact hyphenFree_keys_rekey_flattenDots (hyphenFree_keys_rekey_normHyphen _)
+
+/-- one entry per path: no two files of the result have the same key -/
+theorem result_keys_distinct (treatDot : Bool) (mods : List MPath) :
+    (keys (resultsFinal treatDot mods)).Nodup := by
+  unfold resultsFinal
+  split
+  · exact nodup_keys_postTreatDot (nodup_keys_rekey _ _)
+  · exact nodup_keys_rekey _ _
+
+/-- A module that is itself a package (processed with `init = True`) is stored under the raw key of its
+placeholder, so after the final pass its body and the placeholder that made it a package are ONE file,
+`<normalised module path>/__init__.py`, and that file is in the result. -/
+theorem package_file_meets_placeholder (mods : List MPath) (a : Assigned)
+    (ha : a ∈ assign [] (procOrder mods)) (hi : a.init = true) :
+    writtenKey a = .init a.mod ∧ FileKey.init a.mod ∈ parentsAfter [] (procOrder mods) ∧
+    (writtenKey a).normHyphen = .init (a.mod.map normHyphen) ∧
+    FileKey.init (a.mod.map normHyphen) ∈ keys (resultsHyphen mods) := by
+  obtain ⟨hk, hp⟩ := init_key_is_placeholder ha hi
+  refine ⟨hk, hp, by rw [hk]; rfl, ?_⟩
+  exact mem_keys_rekey.mpr ⟨.init a.mod, mem_keys_resultsRaw.mpr (Or.inl hp), rfl⟩
+
+/-- PARTIAL (two decidable side conditions: no other module is written to the same file, no other raw key
+falls on the same normalised key): the models of every processed module — plain module or package — are
+found in the result under the NORMALISED key of the module, i.e. where an import statement looks. -/
+theorem module_body_at_normalised_key_partial (mods : List MPath) (a : Assigned)
+    (ha : a ∈ assign [] (procOrder mods)) (hw : a.written = true)
+    (hs : soleWriter mods a = true) (hp : solePath mods a = true) :
+    (resultsHyphen mods).lookup (writtenKey a).normHyphen = some (bodyOf a) :=
+  lookup_resultsHyphen ha hw hs hp
+
+/-- non-vacuity on the shape of a real tree: `my-api/x.json` with a dotted definition `sub.Model` (so that
+`my-api.x` is a package), `my-api/y.json`, `common.json` -/
+example :
+    let mods : List MPath := [[n "my-api", n "x", n "sub"], [n "my-api", n "y"], [n "my-api", n "x"], [n "common"]]
+    let a : Assigned := ⟨[n "my-api", n "x"], true, .init [n "my-api", n "x"], true⟩
+    deepestFirst mods = true ∧ a ∈ assign [] (procOrder mods) ∧ a.written = true ∧
+    soleWriter mods a = true ∧ solePath mods a = true ∧
+    (resultsHyphen mods).lookup (.init [n "my_api", n "x"]) = some (some [n "my-api", n "x"]) ∧
+    keys (resultsFinal false mods) = [.init [n "my_api", n "x"], .init [n "my_api"], .init [],
+      .py [n "my_api", n "x"] (n "sub"), .py [n "my_api"] (n "y"), .py [] (n "common")] := by decide
+
+/-- REFUTATION of the statement without the side conditions: directories `my-api/` and `my_api/` fall on
+one package. Without `soleWriter`: the plain modules `my_api/x` and `my-api/x` are written to one file, the
+models of the first are lost. Without `solePath`: the package files `my_api/x/__init__.py` and
+`my-api/x/__init__.py` have different raw keys that the final pass merges, the models of the first are lost. -/
+theorem module_body_lost_on_key_clash :
+    (let mods : List MPath := [[n "my_api", n "x"], [n "my-api", n "x"]]
+     let a : Assigned := ⟨[n "my_api", n "x"], true, .py [n "my_api"] (n "x"), false⟩
+     a ∈ assign [] (procOrder mods) ∧ a.written = true ∧ solePath mods a = true ∧ soleWriter mods a = false ∧
+     (resultsHyphen mods).lookup (writtenKey a).normHyphen = some (some [n "my-api", n "x"])) ∧
+    (let mods : List MPath := [[n "my_api", n "x", n "s"], [n "my-api", n "x", n "s"], [n "my_api", n "x"], [n "my-api", n "x"]]
+     let a : Assigned := ⟨[n "my_api", n "x"], true, .init [n "my_api", n "x"], true⟩
+     a ∈ assign [] (procOrder mods) ∧ a.written = true ∧ soleWriter mods a = true ∧ solePath mods a = false ∧
+     (resultsHyphen mods).lookup (writtenKey a).normHyphen = some (some [n "my-api", n "x"])) := by decide
 
 /-! ### names -/
 
